@@ -3,6 +3,7 @@
 mod alloc;
 mod exec;
 mod fmt;
+mod grab;
 mod objs;
 mod utilx;
 
